@@ -1,2 +1,848 @@
+//! C09: concurrent index allocation is exclusive, bounded and leak-free.
+//!
+//! Subjects (real code, built against the atomics drop-in):
+//!  * `FixedSizeUniqueIndexSet` (plain tagged free-list, raw-index API),
+//!  * `StaticRobustUniqueIndexSet` (crash-robust set: owner cells + generation counter, `recover`),
+//!  * bb-memory `FixedSizePoolAllocator` over a heap buffer,
+//!  * cal `shm_allocator::PoolAllocator` over a heap buffer (offset based, non-fixed bb allocator).
+//!
+//! 2..3 model threads run short acquire / release / release-and-lock / recover programs on
+//! capacities 1..4 (the programs are chosen so that the free-list head is contended and the ABA
+//! shapes "pop i, pop j, push i while a third pop is in flight" exist, including the one where
+//! the borrowed counter is back at its old value and only the ABA tag tells the heads apart).
+//! In the recover cases the first thread ends while holding indices (the dead owner); after it
+//! was joined a third thread recovers its owner id while the second thread keeps running.
+//! Oracles:
+//!  * direct, memory-model independent: every index < capacity, every bucket inside the managed
+//!    region / aligned / disjoint from all live buckets, nobody is handed an index that another
+//!    holder has not given back yet (harness side owner table), bucket patterns survive,
+//!    `recover` of a dead owner hands back exactly the indices this owner still held;
+//!  * the call/return history (threads + drain probe of the main thread at quiescence) is
+//!    linearizable against the sequential specification "owner per index + locked flag";
+//!  * at quiescence exactly `capacity - still held` indices can be acquired (zero when locked).
+//!
+//! In stale-read stages only what C11 does not promise is weakened: sequential consistency plus
+//! the spawn/join edges instead of real-time order, and an "out of indices" may be spurious.
+
 extern crate iceoryx2_bb_loggers;
-fn main() {}
+
+use core::alloc::Layout;
+use core::ptr::NonNull;
+use std::sync::atomic::{AtomicU8, Ordering as StdOrdering};
+use std::sync::{Arc, Mutex};
+
+use iceoryx2_bb_elementary::bump_allocator::BumpAllocator;
+use iceoryx2_bb_elementary_traits::allocator::{Allocate, Deallocate};
+use iceoryx2_bb_lock_free::mpmc::robust_unique_index_set::{OwnerId, StaticRobustUniqueIndexSet};
+use iceoryx2_bb_lock_free::mpmc::unique_index_set::FixedSizeUniqueIndexSet;
+use iceoryx2_bb_lock_free::mpmc::unique_index_set_enums::{ReleaseMode, ReleaseState, UniqueIndexSetAcquireFailure};
+use iceoryx2_bb_memory::pool_allocator::FixedSizePoolAllocator;
+use iceoryx2_cal::shm_allocator::pool_allocator::{Config as ShmPoolConfig, PoolAllocator as ShmPoolAllocator};
+use iceoryx2_cal::shm_allocator::{PointerOffset, ShmAllocator};
+use ixmc::lin::{linearizable, sequentially_consistent, Ev};
+use ixmc::{pb, Case, Config};
+
+const MAX_CAP: usize = 4;
+/// `who` of the main thread's drain probe (model threads use their thread id 1..3)
+const MAIN: u8 = 8;
+
+/// holder name for messages
+fn hn(who: u8) -> String {
+    if who == MAIN {
+        "the drain probe of the main thread".to_string()
+    } else {
+        format!("T{who}")
+    }
+}
+
+// ------------------------------------------------------------------------------------------
+// sequential specification
+
+#[derive(Clone, Copy, Debug, PartialEq, Eq, Hash)]
+enum Fail {
+    Out,
+    Locked,
+}
+
+#[derive(Clone, Debug, PartialEq, Eq, Hash)]
+enum Op {
+    Acquire { who: u8, res: Result<u32, Fail> },
+    /// atomic release (plain set, pool allocators); `locked`: the call reported `Locked`
+    Release { who: u8, idx: u32, lock_if_last: bool, locked: bool },
+    /// robust set, first half of `release`: the owner cell is cleared
+    Free { who: u8, idx: u32, then_lock: bool },
+    /// robust set, second half of `release(.., LockIfLastIndex)`: the lock attempt
+    TryLock { who: u8, locked: bool },
+    /// robust set: `recover` of everything `target` owns
+    Recover { who: u8, target: u8, got: Vec<u32>, then_lock: bool },
+    /// robust set: lock attempts and final state report of `recover(LockIfLastIndex, ..)`
+    RecLock { who: u8, locked: bool, recovered_any: bool },
+}
+
+#[derive(Clone, Debug, PartialEq, Eq, Hash)]
+struct St {
+    /// 0 = free, otherwise the holder
+    owner: [u8; MAX_CAP],
+    locked: bool,
+    /// threads whose `Free{then_lock}` is linearised but whose `TryLock` is not yet
+    pend: u16,
+}
+
+impl St {
+    fn new() -> Self {
+        St { owner: [0; MAX_CAP], locked: false, pend: 0 }
+    }
+}
+
+/// `weak` (stale-read stages): a thread need not observe another thread's release yet, so an
+/// out-of-indices result is legal in every state.  Everything else stays strict.
+fn spec(cap: u32, weak: bool) -> impl Fn(&St, &Op) -> Option<St> {
+    move |s, op| {
+        let cap = cap as usize;
+        let none_held = |s: &St| s.owner[..cap].iter().all(|o| *o == 0);
+        let mut n = s.clone();
+        match op {
+            Op::Acquire { who, res: Ok(i) } => {
+                let i = *i as usize;
+                if i >= cap || s.locked || s.owner[i] != 0 {
+                    return None;
+                }
+                n.owner[i] = *who;
+            }
+            Op::Acquire { res: Err(Fail::Out), .. } if weak => {}
+            Op::Acquire { res: Err(_), .. } => {
+                // the property does not distinguish the two failure kinds
+                let all_taken = s.owner[..cap].iter().all(|o| *o != 0);
+                if !(s.locked || all_taken) {
+                    return None;
+                }
+            }
+            Op::Release { who, idx, lock_if_last, locked } => {
+                let i = *idx as usize;
+                if i >= cap || s.owner[i] != *who {
+                    return None;
+                }
+                n.owner[i] = 0;
+                let must_lock = *lock_if_last && none_held(&n);
+                if must_lock != *locked {
+                    return None;
+                }
+                if must_lock {
+                    n.locked = true;
+                }
+            }
+            Op::Free { who, idx, then_lock } => {
+                let i = *idx as usize;
+                if i >= cap || s.owner[i] != *who {
+                    return None;
+                }
+                n.owner[i] = 0;
+                if *then_lock {
+                    n.pend |= 1u16 << *who;
+                }
+            }
+            Op::TryLock { who, locked } => {
+                if s.pend & (1u16 << *who) == 0 {
+                    return None;
+                }
+                n.pend &= !(1u16 << *who);
+                if *locked {
+                    if !(s.locked || none_held(s)) {
+                        return None;
+                    }
+                    n.locked = true;
+                } else if s.locked || none_held(s) {
+                    return None;
+                }
+            }
+            Op::Recover { who, target, got, then_lock } => {
+                let owned: Vec<u32> = (0..cap).filter(|i| s.owner[*i] == *target).map(|i| i as u32).collect();
+                if owned != *got {
+                    return None;
+                }
+                for i in got {
+                    n.owner[*i as usize] = 0;
+                }
+                if *then_lock {
+                    n.pend |= 1u16 << *who;
+                }
+            }
+            Op::RecLock { who, locked, recovered_any } => {
+                if s.pend & (1u16 << *who) == 0 {
+                    return None;
+                }
+                n.pend &= !(1u16 << *who);
+                if *locked {
+                    // recover locks only after it took an index away; otherwise it merely reports
+                    if !(s.locked || (*recovered_any && none_held(s))) {
+                        return None;
+                    }
+                    n.locked = true;
+                } else if weak && s.locked {
+                    // the final report is a relaxed load: another thread's lock need not be visible yet
+                } else if s.locked || (*recovered_any && none_held(s)) {
+                    return None;
+                }
+            }
+        }
+        Some(n)
+    }
+}
+
+// ------------------------------------------------------------------------------------------
+// history recorder (like ixmc::lin::Recorder, but one call may yield two events: the two halves
+// of the robust set's release share the call/return stamps)
+
+struct Rec {
+    evs: Mutex<Vec<Ev<Op>>>,
+}
+
+impl Rec {
+    fn new() -> Self {
+        Rec { evs: Mutex::new(Vec::new()) }
+    }
+    fn call<R>(&self, f: impl FnOnce() -> R, mk: impl FnOnce(&R) -> Vec<Op>) -> R {
+        let c = ixmc::stamp();
+        let r = f();
+        let t = ixmc::stamp();
+        let thread = ixmc::current_thread();
+        let mut g = self.evs.lock().unwrap();
+        for op in mk(&r) {
+            g.push(Ev { thread, call: c, ret: t, op });
+        }
+        r
+    }
+    fn take(&self) -> Vec<Ev<Op>> {
+        std::mem::take(&mut *self.evs.lock().unwrap())
+    }
+}
+
+// ------------------------------------------------------------------------------------------
+// subjects
+
+trait Subject: Send + Sync {
+    fn capacity(&self) -> u32;
+    fn acquire(&self, who: u8) -> Result<u32, Fail>;
+    /// returns whether the call reported `Locked`
+    fn release(&self, who: u8, idx: u32, lock_if_last: bool) -> bool;
+    fn release_ops(&self, who: u8, idx: u32, lock_if_last: bool, locked: bool) -> Vec<Op> {
+        vec![Op::Release { who, idx, lock_if_last, locked }]
+    }
+    /// `about_to_free(i)` is called right before index i is taken away from the dead owner
+    fn recover(&self, _target: u8, _lock_if_last: bool, _about_to_free: &dyn Fn(u32)) -> (Vec<u32>, bool) {
+        unreachable!("recover is only offered by the robust set")
+    }
+    /// user side of a hold (pool allocators: fill the bucket with a holder specific pattern)
+    fn on_acquired(&self, _who: u8, _idx: u32) {}
+    /// pool allocators: the pattern must have survived
+    fn verify_held(&self, _who: u8, _idx: u32) {}
+    /// whether a hold comes with memory the holder uses
+    fn has_memory(&self) -> bool {
+        false
+    }
+}
+
+fn map_fail(f: UniqueIndexSetAcquireFailure) -> Fail {
+    match f {
+        UniqueIndexSetAcquireFailure::OutOfIndices => Fail::Out,
+        UniqueIndexSetAcquireFailure::IsLocked => Fail::Locked,
+    }
+}
+
+fn mode(lock_if_last: bool) -> ReleaseMode {
+    if lock_if_last {
+        ReleaseMode::LockIfLastIndex
+    } else {
+        ReleaseMode::Default
+    }
+}
+
+struct Plain {
+    set: FixedSizeUniqueIndexSet<MAX_CAP>,
+}
+
+impl Subject for Plain {
+    fn capacity(&self) -> u32 {
+        self.set.capacity()
+    }
+    fn acquire(&self, _who: u8) -> Result<u32, Fail> {
+        // SAFETY: the harness releases every index it acquired at most once
+        unsafe { self.set.acquire_raw_index() }.map_err(map_fail)
+    }
+    fn release(&self, _who: u8, idx: u32, lock_if_last: bool) -> bool {
+        // SAFETY: idx was returned by acquire_raw_index to this thread and is released once
+        unsafe { self.set.release_raw_index(idx, mode(lock_if_last)) == ReleaseState::Locked }
+    }
+}
+
+struct Robust {
+    set: StaticRobustUniqueIndexSet<MAX_CAP>,
+}
+
+fn owner(who: u8) -> OwnerId {
+    OwnerId::new(who as u64).unwrap()
+}
+
+impl Subject for Robust {
+    fn capacity(&self) -> u32 {
+        self.set.capacity() as u32
+    }
+    fn acquire(&self, who: u8) -> Result<u32, Fail> {
+        self.set.acquire(owner(who)).map(|i| i as u32).map_err(map_fail)
+    }
+    fn release(&self, who: u8, idx: u32, lock_if_last: bool) -> bool {
+        match self.set.release(idx as usize, owner(who), mode(lock_if_last)) {
+            Ok(st) => st == ReleaseState::Locked,
+            Err(e) => {
+                ixmc::fail(format!("T{who} could not release index {idx} it holds: {e:?}"));
+                false
+            }
+        }
+    }
+    fn release_ops(&self, who: u8, idx: u32, lock_if_last: bool, locked: bool) -> Vec<Op> {
+        if lock_if_last {
+            vec![Op::Free { who, idx, then_lock: true }, Op::TryLock { who, locked }]
+        } else {
+            ixmc::check!(!locked, "release({idx}, Default) by T{who} reported Locked");
+            vec![Op::Free { who, idx, then_lock: false }]
+        }
+    }
+    fn recover(&self, target: u8, lock_if_last: bool, about_to_free: &dyn Fn(u32)) -> (Vec<u32>, bool) {
+        let t = owner(target);
+        let mut got: Vec<u32> = Vec::new();
+        let st = self.set.recover(
+            mode(lock_if_last),
+            |o, i| {
+                if o == t {
+                    about_to_free(i as u32);
+                }
+                o == t
+            },
+            |o, i| {
+                ixmc::check!(o == t, "recover of owner {target} reported index {i} of another owner {o:?}");
+                got.push(i as u32)
+            },
+        );
+        got.sort();
+        (got, st == ReleaseState::Locked)
+    }
+}
+
+const BUCKET_SIZE: usize = 16;
+const BUCKET_ALIGN: usize = 8;
+
+/// Const capacity of the fixed-size pool allocator.  It must exceed the number of buckets of the
+/// managed memory: `FixedSizePoolAllocator::<N>::new` hands only `N * 4` bytes of its `N + 1`
+/// link cells to the index set, so with `N` or more buckets its constructor panics ("All required
+/// memory is preallocated.: OutOfMemory").  That is a sequential construction defect outside
+/// C09 (allocator arithmetic is C15's subject); the harness stays clear of it.
+const FIXED_POOL_N: usize = 2 * MAX_CAP;
+
+enum PoolImpl {
+    Fixed(FixedSizePoolAllocator<FIXED_POOL_N>),
+    Shm { sut: Box<ShmPoolAllocator>, _mgmt: Box<[u64; 64]> },
+}
+
+struct Pool {
+    imp: PoolImpl,
+    /// start and length of the managed memory handed to the allocator
+    base: usize,
+    size: usize,
+    buckets: u32,
+    _mem: Box<[u128; MAX_CAP]>,
+    /// live buckets: (holder, offset into the managed memory)
+    live: Mutex<Vec<(u8, usize)>>,
+}
+
+// SAFETY: the raw addresses refer to `_mem`, which lives as long as the subject; the allocators
+// themselves are the thread-safe objects under test
+unsafe impl Send for Pool {}
+unsafe impl Sync for Pool {}
+
+impl Pool {
+    fn new(buckets: usize, shm: bool) -> Self {
+        let mut mem = Box::new([0u128; MAX_CAP]);
+        let base = mem.as_mut_ptr() as *mut u8;
+        let size = buckets * BUCKET_SIZE;
+        let layout = Layout::from_size_align(BUCKET_SIZE, BUCKET_ALIGN).unwrap();
+        let imp = if shm {
+            let mut mgmt = Box::new([0u64; 64]);
+            let bump = BumpAllocator::new(NonNull::new(mgmt.as_mut_ptr() as *mut u8).unwrap(), core::mem::size_of_val(&*mgmt));
+            let managed = NonNull::new(core::ptr::slice_from_raw_parts_mut(base, size)).unwrap();
+            // boxed before `init`: the allocator keeps a relative pointer to its management memory
+            let mut sut = Box::new(unsafe { ShmPoolAllocator::new_uninit(4096, managed, &ShmPoolConfig { bucket_layout: layout }) });
+            unsafe { sut.init(&bump) }.expect("management memory suffices");
+            PoolImpl::Shm { sut, _mgmt: mgmt }
+        } else {
+            PoolImpl::Fixed(FixedSizePoolAllocator::<FIXED_POOL_N>::new(layout, NonNull::new(base).unwrap(), size))
+        };
+        let n = match &imp {
+            PoolImpl::Fixed(a) => a.number_of_buckets(),
+            PoolImpl::Shm { sut, .. } => sut.number_of_buckets(),
+        };
+        assert_eq!(n as usize, buckets, "harness: unexpected number of buckets");
+        Pool { imp, base: base as usize, size, buckets: n, _mem: mem, live: Mutex::new(Vec::new()) }
+    }
+
+    fn request() -> Layout {
+        Layout::from_size_align(BUCKET_SIZE, BUCKET_ALIGN).unwrap()
+    }
+
+    fn pattern(who: u8, off: usize) -> u8 {
+        who.wrapping_mul(16).wrapping_add((off / BUCKET_SIZE) as u8 + 1)
+    }
+
+    /// offset of the allocation relative to the managed memory (None: allocation failed)
+    fn raw_allocate(&self) -> Option<isize> {
+        match &self.imp {
+            PoolImpl::Fixed(a) => a.allocate(Self::request()).ok().map(|p| p.as_ptr() as isize - self.base as isize),
+            PoolImpl::Shm { sut, .. } => {
+                let a = unsafe { sut.assume_init() };
+                a.allocate(Self::request()).ok().map(|o| (o.offset() + sut.relative_start_address()) as isize)
+            }
+        }
+    }
+}
+
+impl Subject for Pool {
+    fn capacity(&self) -> u32 {
+        self.buckets
+    }
+    fn acquire(&self, who: u8) -> Result<u32, Fail> {
+        let off = match self.raw_allocate() {
+            None => return Err(Fail::Out),
+            Some(o) => o,
+        };
+        if off < 0 || off as usize + BUCKET_SIZE > self.size {
+            ixmc::fail(format!(
+                "bucket handed to {} at offset {off} (size {BUCKET_SIZE}) is outside the managed memory of {} bytes",
+                hn(who),
+                self.size
+            ));
+            // never touch memory outside the buffer; report an out-of-range index to the caller
+            return Ok(u32::MAX);
+        }
+        let off = off as usize;
+        ixmc::check!(
+            (self.base + off) % BUCKET_ALIGN == 0,
+            "bucket handed to {} at offset {off} is not aligned to the bucket alignment {BUCKET_ALIGN}",
+            hn(who)
+        );
+        let mut live = self.live.lock().unwrap();
+        for (h, o) in live.iter() {
+            if off < *o + BUCKET_SIZE && *o < off + BUCKET_SIZE {
+                ixmc::fail(format!(
+                    "bucket at offset {off} handed to {} overlaps the live bucket at offset {o} of {}",
+                    hn(who),
+                    hn(*h)
+                ));
+            }
+        }
+        live.push((who, off));
+        Ok((off / BUCKET_SIZE) as u32)
+    }
+    fn release(&self, who: u8, idx: u32, _lock_if_last: bool) -> bool {
+        let off = {
+            let mut live = self.live.lock().unwrap();
+            let k = live
+                .iter()
+                .position(|(h, o)| *h == who && (*o / BUCKET_SIZE) as u32 == idx)
+                .expect("harness: releasing a bucket that is not live");
+            live.remove(k).1
+        };
+        match &self.imp {
+            PoolImpl::Fixed(a) => unsafe {
+                a.deallocate(NonNull::new((self.base + off) as *mut u8).unwrap(), Self::request());
+            },
+            PoolImpl::Shm { sut, .. } => unsafe {
+                let a = sut.assume_init();
+                a.deallocate(PointerOffset::new(off - sut.relative_start_address()), Self::request());
+            },
+        }
+        false
+    }
+    fn has_memory(&self) -> bool {
+        true
+    }
+    fn on_acquired(&self, who: u8, idx: u32) {
+        let off = match self.live.lock().unwrap().iter().find(|(h, o)| *h == who && (*o / BUCKET_SIZE) as u32 == idx) {
+            Some((_, o)) => *o,
+            None => return,
+        };
+        // SAFETY: [off, off + BUCKET_SIZE) was checked to be inside `_mem`
+        unsafe { core::ptr::write_bytes((self.base + off) as *mut u8, Self::pattern(who, off), BUCKET_SIZE) };
+    }
+    fn verify_held(&self, who: u8, idx: u32) {
+        let off = match self.live.lock().unwrap().iter().find(|(h, o)| *h == who && (*o / BUCKET_SIZE) as u32 == idx) {
+            Some((_, o)) => *o,
+            None => return,
+        };
+        let bytes = unsafe { core::slice::from_raw_parts((self.base + off) as *const u8, BUCKET_SIZE) };
+        let want = Self::pattern(who, off);
+        ixmc::check!(
+            bytes.iter().all(|b| *b == want),
+            "the bucket at offset {off} was overwritten while {} held it: {bytes:?}, expected all {want}",
+            hn(who)
+        );
+    }
+}
+
+#[derive(Clone, Copy, PartialEq, Eq, Debug)]
+enum Kind {
+    Plain,
+    Robust,
+    Pool,
+    ShmPool,
+}
+
+fn make(kind: Kind, cap: usize) -> Arc<dyn Subject> {
+    match kind {
+        Kind::Plain => Arc::new(Plain { set: FixedSizeUniqueIndexSet::<MAX_CAP>::new_with_reduced_capacity(cap).unwrap() }),
+        Kind::Robust => Arc::new(Robust { set: StaticRobustUniqueIndexSet::<MAX_CAP>::new_with_reduced_capacity(cap).unwrap() }),
+        Kind::Pool => Arc::new(Pool::new(cap, false)),
+        Kind::ShmPool => Arc::new(Pool::new(cap, true)),
+    }
+}
+
+// ------------------------------------------------------------------------------------------
+// thread programs
+
+#[derive(Clone, Copy, PartialEq, Eq, Debug)]
+enum P {
+    /// acquire one index
+    A,
+    /// release the oldest / the newest index this thread holds (nothing held: no-op)
+    RelOld,
+    RelNew,
+    /// the same with `ReleaseMode::LockIfLastIndex`
+    RelOldLock,
+    /// recover everything the (finished, hence "dead") first thread still owns
+    RecoverFirst,
+    /// the same with `ReleaseMode::LockIfLastIndex`
+    RecoverFirstLock,
+}
+
+/// harness side owner table; std atomics are invisible to the scheduler
+struct Table {
+    slot: [AtomicU8; MAX_CAP],
+}
+
+impl Table {
+    fn new() -> Self {
+        Table { slot: [const { AtomicU8::new(0) }; MAX_CAP] }
+    }
+    fn held(&self) -> Vec<(u32, u8)> {
+        (0..MAX_CAP).map(|i| (i as u32, self.slot[i].load(StdOrdering::SeqCst))).filter(|(_, h)| *h != 0).collect()
+    }
+}
+
+struct Ctx {
+    s: Arc<dyn Subject>,
+    rec: Rec,
+    tab: Table,
+}
+
+impl Ctx {
+    /// one recorded acquire with the direct checks; returns the index if one was obtained
+    fn acquire(&self, who: u8) -> Option<u32> {
+        let r = self.rec.call(|| self.s.acquire(who), |r| vec![Op::Acquire { who, res: *r }]);
+        let i = r.ok()?;
+        let cap = self.s.capacity();
+        if i >= cap {
+            ixmc::fail(format!("{} was handed index {i}, which is not below the capacity {cap}", hn(who)));
+            return None;
+        }
+        let prev = self.tab.slot[i as usize].swap(who, StdOrdering::SeqCst);
+        ixmc::check!(prev == 0, "index {i} was handed to {} while {} still holds it", hn(who), hn(prev));
+        self.s.on_acquired(who, i);
+        Some(i)
+    }
+
+    fn release(&self, who: u8, idx: u32, lock_if_last: bool) {
+        self.s.verify_held(who, idx);
+        self.tab.slot[idx as usize].store(0, StdOrdering::SeqCst);
+        self.rec.call(|| self.s.release(who, idx, lock_if_last), |l| self.s.release_ops(who, idx, lock_if_last, *l));
+    }
+
+    /// runs a program, returns the indices still held at its end
+    fn run(&self, prog: &[P], dead_held: Option<&[u32]>, mut held: Vec<u32>) -> Vec<u32> {
+        let who = ixmc::current_thread() as u8;
+        for p in prog {
+            match p {
+                P::A => {
+                    if let Some(i) = self.acquire(who) {
+                        if self.s.has_memory() {
+                            // user side of the hold: the bucket is used across a scheduling point
+                            ixmc::step();
+                            self.s.verify_held(who, i);
+                        }
+                        held.push(i);
+                    }
+                }
+                P::RelOld | P::RelNew | P::RelOldLock => {
+                    if held.is_empty() {
+                        continue;
+                    }
+                    let i = if *p == P::RelNew { held.pop().unwrap() } else { held.remove(0) };
+                    self.release(who, i, *p == P::RelOldLock);
+                }
+                P::RecoverFirst | P::RecoverFirstLock => {
+                    let lock = *p == P::RecoverFirstLock;
+                    // the owner table entry is cleared right before the set frees the cell (once
+                    // the cell is free another thread may legitimately be handed the index)
+                    let about_to_free = |i: u32| {
+                        if i < self.s.capacity() {
+                            let prev = self.tab.slot[i as usize].swap(0, StdOrdering::SeqCst);
+                            ixmc::check!(prev == 1, "recover of dead owner 1 takes index {i} away from holder {prev}");
+                        }
+                    };
+                    let (got, _) = self.rec.call(
+                        || self.s.recover(1, lock, &about_to_free),
+                        |(g, l)| {
+                            let mut ops = vec![Op::Recover { who, target: 1, got: g.clone(), then_lock: lock }];
+                            if lock {
+                                ops.push(Op::RecLock { who, locked: *l, recovered_any: !g.is_empty() });
+                            }
+                            ops
+                        },
+                    );
+                    let want = dead_held.expect("harness: recover without a dead thread");
+                    let mut want = want.to_vec();
+                    want.sort();
+                    ixmc::check!(
+                        got == want,
+                        "recover of the dead owner returned {got:?}, but the owner died holding exactly {want:?}"
+                    );
+                    if !got.is_empty() {
+                        ixmc::note("recovered-nonempty");
+                    }
+                }
+            }
+        }
+        held
+    }
+}
+
+/// `late_third`: the third program is started only after the first thread was joined (the first
+/// thread is the dead owner the third one recovers) while the second thread is still running.
+///
+/// `pre[k]`: number of indices the main thread acquires during setup on behalf of thread k+1
+/// (they start in that thread's held list, oldest first).
+fn body(kind: Kind, cap: usize, progs: Vec<Vec<P>>, pre: Vec<usize>, late_third: bool) -> impl Fn() + Send + Sync + 'static {
+    move || {
+        let ctx = Arc::new(Ctx { s: make(kind, cap), rec: Rec::new(), tab: Table::new() });
+        let mut init: Vec<Vec<u32>> = vec![Vec::new(); progs.len()];
+        for (k, n) in pre.iter().enumerate() {
+            for _ in 0..*n {
+                match ctx.acquire(k as u8 + 1) {
+                    Some(i) => init[k].push(i),
+                    None => ixmc::fail(format!("setup: acquire on a set with free indices failed (capacity {cap})")),
+                }
+            }
+        }
+        let mut hs = Vec::new();
+        let n_first = if late_third { 2 } else { progs.len() };
+        for (prog, held) in progs.iter().take(n_first).cloned().zip(init.iter().cloned()) {
+            let ctx = ctx.clone();
+            hs.push(ixmc::spawn(move || ctx.run(&prog, None, held)));
+        }
+        if late_third {
+            let dead = hs.remove(0).join();
+            let (ctx2, prog, held) = (ctx.clone(), progs[2].clone(), init[2].clone());
+            hs.push(ixmc::spawn(move || ctx2.run(&prog, Some(&dead), held)));
+        }
+        for h in hs {
+            h.join();
+        }
+
+        // ---- quiescence: drain probe by the main thread
+        let cap32 = ctx.s.capacity();
+        let held_before = ctx.tab.held();
+        let thread_evs_locked = {
+            let g = ctx.rec.evs.lock().unwrap();
+            g.iter().any(|e| matches!(e.op, Op::Release { locked: true, .. } | Op::TryLock { locked: true, .. } | Op::RecLock { locked: true, .. }))
+        };
+        let mut drained: Vec<u32> = Vec::new();
+        for _ in 0..=cap32 {
+            match ctx.acquire(MAIN) {
+                Some(i) => drained.push(i),
+                None => break,
+            }
+        }
+        let want = if thread_evs_locked { 0 } else { cap32 as usize - held_before.len() };
+        ixmc::check!(
+            drained.len() == want,
+            "at quiescence {} of {} indices are held ({:?} as (index, holder)), locked = {}: expected to acquire exactly {} more, got {:?}",
+            held_before.len(),
+            cap32,
+            held_before,
+            thread_evs_locked,
+            want,
+            drained
+        );
+        // buckets that are still held kept their content although everything else was handed out
+        for (i, h) in ctx.tab.held() {
+            ctx.s.verify_held(h, i);
+        }
+
+        // ---- history
+        let evs = ctx.rec.take();
+        let mut sig: Vec<(usize, Op)> = evs.iter().map(|e| (e.thread, e.op.clone())).collect();
+        sig.sort_by_key(|(t, _)| *t);
+        ixmc::observe(ixmc::hash_of(&sig));
+        notes(&evs, thread_evs_locked);
+
+        let first_thread_call = evs.iter().filter(|e| e.thread != 0).map(|e| e.call).min().unwrap_or(u64::MAX);
+        let ok = if ixmc::stale_enabled() {
+            sequentially_consistent(St::new(), &evs, &spec(cap32, true), &|a, b| {
+                // spawn / join edges: the setup acquires happen before everything, everything
+                // happens before the drain; the recovering thread was spawned after the dead
+                // thread had been joined
+                (a.thread == 0 && a.call < first_thread_call && b.thread != 0)
+                    || (b.thread == 0 && b.call > first_thread_call && a.thread != 0)
+                    || (late_third && a.thread == 1 && b.thread == 3)
+            })
+        } else {
+            linearizable(St::new(), &evs, &spec(cap32, false))
+        };
+        let t0 = evs.iter().map(|e| e.call).min().unwrap_or(0);
+        ixmc::check!(
+            ok,
+            "history is not {} against an index set of capacity {}: (thread, call, return, op) {:?}",
+            if ixmc::stale_enabled() { "sequentially consistent" } else { "linearizable" },
+            cap32,
+            evs.iter().map(|e| (e.thread, e.call - t0, e.ret - t0, &e.op)).collect::<Vec<_>>()
+        );
+    }
+}
+
+/// vacuity guards
+fn notes(evs: &[Ev<Op>], locked: bool) {
+    let threads = |e: &&Ev<Op>| e.thread != 0;
+    if evs.iter().filter(threads).any(|e| matches!(e.op, Op::Acquire { res: Err(Fail::Out), .. })) {
+        ixmc::note("acquire-failed-when-full");
+    }
+    if evs.iter().filter(threads).any(|e| matches!(e.op, Op::Acquire { res: Err(Fail::Locked), .. })) {
+        ixmc::note("acquire-failed-locked");
+    }
+    if locked {
+        ixmc::note("locked");
+    }
+    // an index that went through two different holders while the threads were running
+    let acq: Vec<(&Ev<Op>, u32, u8)> = evs
+        .iter()
+        .filter(threads)
+        .filter_map(|e| match e.op {
+            Op::Acquire { who, res: Ok(i) } => Some((e, i, who)),
+            _ => None,
+        })
+        .collect();
+    if acq.iter().any(|(_, i, w)| acq.iter().any(|(_, j, v)| i == j && w != v)) {
+        ixmc::note("index-reused");
+    }
+    // ABA window: while an acquire that finally returned i was in flight, i was handed out to and
+    // given back by another thread
+    for (a, i, w) in &acq {
+        let inside = |e: &Ev<Op>| e.call > a.call && e.ret < a.ret;
+        let popped = acq.iter().any(|(e, j, v)| j == i && v != w && e.call > a.call && e.ret < a.ret);
+        let pushed = evs.iter().any(|e| {
+            inside(e) && matches!(e.op, Op::Release { idx, who, .. } | Op::Free { idx, who, .. } if idx == *i && who != *w)
+        });
+        if popped && pushed {
+            ixmc::note("aba-window");
+        }
+    }
+}
+
+fn main() {
+    use P::*;
+    let cfg = Config { post_load: true, cell_points: true, stale_reads: true, horizon: 3000, ..Config::default() };
+
+    struct Spec {
+        name: &'static str,
+        cap: usize,
+        progs: Vec<Vec<P>>,
+        late_third: bool,
+        pre: Vec<usize>,
+        kinds: Vec<Kind>,
+        notes: Vec<&'static str>,
+    }
+    use Kind::*;
+    let sp = |name, cap, progs: &[&[P]], kinds: &[Kind], notes: &[&'static str]| Spec {
+        name,
+        cap,
+        progs: progs.iter().map(|p| p.to_vec()).collect(),
+        late_third: false,
+        pre: vec![],
+        kinds: kinds.to_vec(),
+        notes: notes.to_vec(),
+    };
+    let all = [Plain, Robust, Pool, ShmPool];
+    let sets = [Plain, Robust];
+    // The pool allocators are thin wrappers around the plain set: they run the two-thread programs
+    // and the decisive three-thread ABA shapes, the sets run everything.
+    let specs = vec![
+        // capacity 1: every operation collides on the single index
+        sp("cap1/ara-ar", 1, &[&[A, RelOld, A], &[A, RelOld]], &all, &["acquire-failed-when-full", "index-reused"]),
+        sp("cap1/ar-ar-a", 1, &[&[A, RelOld], &[A, RelOld], &[A]], &sets, &["acquire-failed-when-full", "index-reused"]),
+        // capacity 2, ABA shape with two threads: T2 pops 0, pops 1, pushes 0 while T1's pop is in flight
+        sp("cap2/aba2:a-aar", 2, &[&[A], &[A, A, RelOld]], &all, &["acquire-failed-when-full", "aba-window"]),
+        // the same shape with three threads
+        sp("cap2/aba3:a-ar-a", 2, &[&[A], &[A, RelOld], &[A]], &[Plain, Robust, Pool], &["acquire-failed-when-full", "index-reused", "aba-window"]),
+        sp("cap2/ara-ara", 2, &[&[A, RelOld, A], &[A, RelOld, A]], &all, &["index-reused"]),
+        // the shape only the ABA tag protects (the borrowed counter is back at its old value, too):
+        // free list 1 -> 2, index 0 held by T3.  T1 reads head = 1, next = 2 and is preempted;
+        // T2 pops 1, T3 pops 2 and pushes 0, T2 pushes 1: head = 1 again, but next is 0 now.
+        Spec { pre: vec![0, 0, 1], ..sp("cap3/aba-tag:a-ar-Har", 3, &[&[A], &[A, RelOld], &[A, RelOld]], &[Plain, Pool], &["index-reused", "aba-window"]) },
+        // capacity 3: indices stay free, the free list is longer than the contention
+        sp("cap3/aar-ar-a", 3, &[&[A, A, RelOld], &[A, RelNew], &[A]], &sets, &["index-reused"]),
+        // capacity 4, five acquires
+        sp("cap4/aar-aaa", 4, &[&[A, A, RelOld], &[A, A, A]], &[Plain, Robust, Pool], &["index-reused", "acquire-failed-when-full"]),
+        // lock-if-last
+        sp("cap1/lock:al-aa", 1, &[&[A, RelOldLock], &[A, A]], &sets, &["locked", "acquire-failed-locked", "acquire-failed-when-full"]),
+        sp("cap2/lock:al-al-a", 2, &[&[A, RelOldLock], &[A, RelOldLock], &[A]], &sets, &["locked", "acquire-failed-locked"]),
+        sp("cap2/lock:aal-ar", 2, &[&[A, A, RelOldLock], &[A, RelOld]], &sets, &["locked", "acquire-failed-when-full"]),
+        // recovery of a dead owner (robust set only): T1 dies holding indices, T3 recovers them
+        // while T2 keeps acquiring and releasing
+        Spec { late_third: true, ..sp("cap2/recover:a|ara|Ra", 2, &[&[A], &[A, RelOld, A], &[RecoverFirst, A]], &[Robust], &["recovered-nonempty", "index-reused"]) },
+        Spec { late_third: true, ..sp("cap3/recover:aar|ar|R", 3, &[&[A, A, RelOld], &[A, RelOld], &[RecoverFirst]], &[Robust], &["recovered-nonempty"]) },
+        Spec { late_third: true, ..sp("cap2/recover-lock:a|ar|La", 2, &[&[A], &[A, RelOld], &[RecoverFirstLock, A]], &[Robust], &["recovered-nonempty", "locked", "acquire-failed-locked"]) },
+        Spec { late_third: true, ..sp("cap1/recover:a|aa|Ra", 1, &[&[A], &[A, A], &[RecoverFirst, A]], &[Robust], &["recovered-nonempty", "acquire-failed-when-full"]) },
+    ];
+    let mut cases: Vec<(bool, Case)> = Vec::new();
+    for sp in specs {
+        for kind in &sp.kinds {
+            let kname = match kind {
+                Plain => "plain",
+                Robust => "robust",
+                Pool => "pool",
+                ShmPool => "shm-pool",
+            };
+            // heavy: three threads that all run from the start (~15x the schedules of a two-thread
+            // case); medium: three threads of which one starts late, two threads with six operations
+            let heavy = sp.progs.len() == 3 && !sp.late_third;
+            let medium = sp.late_third || sp.progs.iter().map(|p| p.len()).sum::<usize>() >= 6;
+            cases.push((
+                heavy,
+                Case {
+                    name: format!("{kname}/{}", sp.name),
+                    cfg: cfg.clone(),
+                    quick: pb(&[(0, 0), (1, 0), (2, 0), (1, 1)]),
+                    thorough: if heavy {
+                        pb(&[(0, 0), (1, 0), (2, 0), (3, 0), (2, 1)])
+                    } else if medium {
+                        pb(&[(0, 0), (1, 0), (2, 0), (3, 0), (2, 1), (3, 1), (2, 2)])
+                    } else {
+                        pb(&[(0, 0), (1, 0), (2, 0), (3, 0), (4, 0), (3, 1), (2, 2)])
+                    },
+                    split: if heavy { (2, 8) } else if medium { (1, 8) } else { (1, 4) },
+                    body: Arc::new(body(*kind, sp.cap, sp.progs.clone(), sp.pre.clone(), sp.late_third)),
+                    required_notes: sp.notes.clone(),
+                },
+            ));
+        }
+    }
+    // the long jobs are queued first
+    cases.sort_by_key(|(heavy, _)| !*heavy);
+    ixmc::coord::main("h_idx", "C09", cases.into_iter().map(|(_, c)| c).collect());
+}
